@@ -46,6 +46,12 @@ CHECKS = {
    note='Trusted: Python integer arithmetic for the instant model, glibc parsing of POSIX TZ strings. now()/localtz() are environment functions by design and are not evaluated. Thread-dependent date/time state is covered by C18, not here.',
    technique='deterministic simulation of the process time-zone environment (seeded zone changes between history steps) with an instant-arithmetic reference model and a zone-independence metamorphic oracle, shrinking + replay',
    quick_timeout=900, thorough_timeout=21600),
+ 'C14': dict(
+   category='exploration', design_ref='DESIGN.md 3.5',
+   text='Seeded pipelines of <=4 of the listed streaming operators (plus first/any/all/indexOf/indexWhere terminals and join outer side) over an instrumented endless source (and a second one for zip/concat), consumed by a simulated client that takes k in 0..6 results and cancels (next()*k + close, .take(k) with finalisation, or a scalar terminal), with and without yaql.limitIterators, data passed as $ or as a context variable. Faults: no EOF, a read error armed 1 or 3 positions beyond the demand, pull / lambda budgets that turn materialisation or a stall into a finite replayable event. Oracle: pulls per source <= demand of an executable lazy reference model + 1, applications per lambda <= model + 1, armed read error never surfaces. On the unchanged tree the model matches exactly (0 value mismatches in 37k cases).',
+   note='Trusted: the lazy reference model (one Python generator per operator). Value mismatches give no verdict (C13). Loops that neither pull nor apply a lambda are only bounded by a wall guard and reported as HARNESS-ERROR, never as exit 0.',
+   technique='deterministic simulation with fault injection on host streams (endless / failing / budgeted SimSource, cancelling client), lazy executable reference model as consumption oracle, pipeline shrinking + replay',
+   quick_timeout=900, thorough_timeout=21600),
 }
 
 
